@@ -60,6 +60,7 @@ structure St where
   sendFails : Nat := 0
   recvErrs : Nat := 0
   afterReject : Nat := 0
+  nontrivial : Nat := 0                        -- requests counted once if they fall in any class above
 
 def partOf : String → Option Nat
   | "A" => some 1 | "B" => some 2 | "C" => some 3 | "empty" => some 0 | "nilmsg" => some 0
@@ -210,8 +211,9 @@ where
           | some r => (.decrypt r, .dec m, false)
           | none => (.decrypt corruptRec, .dec m, true)
       if unknown then bad s line "record unknown to the model" else
+      let wasRejected := s.hst == HState.failedInit
       let s := { s with ops := s.ops + 1, nreq := s.nreq + 1,
-                        afterReject := s.afterReject + (if s.hst == HState.failedInit then 1 else 0) }
+                        afterReject := s.afterReject + (if wasRejected then 1 else 0) }
       -- model
       let out := Server.step currentGuards simSdk s.tick s.hst req
       let (modelObs, s) : String × St :=
@@ -254,7 +256,9 @@ where
                         refusals := s.refusals + (match op, goObs with | .dec _, .err .sdk => 1 | _, _ => 0),
                         protoErrs := s.protoErrs + (match goObs with | .err .uninitialized => 1 | .err .alreadyInitialized => 1 | _ => 0),
                         nilResp := s.nilResp + (if goObs == MObs.nil then 1 else 0),
-                        sendFails := s.sendFails + (if sf then 1 else 0) }
+                        sendFails := s.sendFails + (if sf then 1 else 0),
+                        nontrivial := s.nontrivial +
+                          (if wasRejected || sf || goObs == MObs.ok || goObs == MObs.decEq || goObs.isErr || goObs == MObs.panic then 1 else 0) }
       let why := match goObs with
         | .panic => "the handler panicked on this request (a panic in a gRPC handler goroutine terminates the sidecar process)"
         | .none => "no response was sent for this request"
@@ -269,7 +273,7 @@ def finish (s : St) : Array String :=
   pre ++ #[s!"SUMMARY engine=server cases={s.cases} ops={s.ops} mismatches={s.mism + pre.size} monitor_fail={s.monFail} " ++
     s!"nil_guard={if currentGuards.all then 1 else 0} sessions={s.sessions} rejected={s.rejected} roundtrips={s.roundtrips} " ++
     s!"refusals={s.refusals} proto_errors={s.protoErrs} after_reject={s.afterReject} panics={s.panics} nil={s.nilResp} " ++
-    s!"sendfail={s.sendFails} recverr={s.recvErrs}"]
+    s!"sendfail={s.sendFails} recverr={s.recvErrs} nontrivial={s.nontrivial}"]
 
 def engine : Engine St := { init := {}, step := step, finish := finish }
 
